@@ -133,6 +133,7 @@ class Ctx:
         self.pruner = None
         self.class_ids = {n: i + 1 for i, n in enumerate(sorted(repo.classes))}
         self.funs = []  # extra define-fun / declare-fun lines
+        self.term_tags = {}  # term of an instantiated specification predicate -> its name
         self.funs_known = {"clsof", "hash_str", "flt_is_zero", "flt_of_int", "flt_eq", "dt_eq", "dt_iso", "dt_str", "flt_repr", "int_of_bool", "py_eq", "ck"}
 
     def fresh(self, prefix, ty):
@@ -177,6 +178,62 @@ class Ctx:
 
     _SYM = None
 
+    @staticmethod
+    def conjuncts(t):
+        """top-level conjuncts of an s-expression  (and A B ...)  (the term itself otherwise)"""
+        if not t.startswith("(and "):
+            return [t]
+        out, depth, start, instr = [], 0, None, False
+        body = t[5:-1]
+        i = 0
+        n = len(body)
+        while i < n:
+            ch = body[i]
+            if ch == '"':
+                if start is None:
+                    start = i
+                instr = not instr
+            elif not instr:
+                if ch == "(":
+                    if depth == 0 and start is None:
+                        start = i
+                    depth += 1
+                elif ch == ")":
+                    depth -= 1
+                    if depth == 0:
+                        out.append(body[start:i + 1])
+                        start = None
+                elif ch.isspace():
+                    if depth == 0 and start is not None:
+                        out.append(body[start:i])
+                        start = None
+                elif depth == 0 and start is None:
+                    start = i
+            i += 1
+        if start is not None:
+            out.append(body[start:])
+        res = []
+        for c in out:
+            res.extend(Ctx.conjuncts(c))
+        return res
+
+    def same_clause_hyps(self, hyps, goal):
+        """hypotheses restricted to: untagged facts (path conditions, definitions, axioms) and the conjuncts
+        that instantiate the same specification predicates as the goal (the induction hypothesis of an
+        invariant is the same predicate).  Dropping hypotheses is sound."""
+        tags = self.term_tags
+        gt = {tags[c] for c in Ctx.conjuncts(goal) if c in tags}
+        if not gt:
+            return None
+        out = []
+        for h in hyps:
+            for c in Ctx.conjuncts(h):
+                tg = tags.get(c)
+                if tg is None or tg in gt:
+                    out.append(c)
+        # among those, only what talks about the goal's symbols or the symbols of their definitions
+        return self.relevant_hyps(out, goal, level=0)
+
     def relevant_hyps(self, hyps, goal, rounds=3, level=1):
         """cone of influence over the generated constants (names containing ! or @): dropping hypotheses
         is always sound; the full query is the fallback"""
@@ -189,10 +246,28 @@ class Ctx:
         for ss in syms:
             for x in ss:
                 freq[x] = freq.get(x, 0) + 1
-        common = {x for x, c in freq.items() if c > 0.4 * n and n > 6}
+        common = {x for x, c in freq.items() if c > 0.4 * n and n > 15}
         goal_syms = set(Ctx._SYM.findall(goal)) - common
         keep = [False] * len(hyps)
         cone = set(goal_syms)
+
+        def def_name(h):
+            return h[3:].split(" ", 1)[0] if h.startswith("(= ") else None
+
+        if level == 0:
+            # definitions closure of the goal's symbols, then every fact that mentions a symbol of it
+            changed = True
+            while changed:
+                changed = False
+                for i, ss in enumerate(syms):
+                    if not keep[i] and def_name(hyps[i]) in cone:
+                        keep[i] = True
+                        changed = True
+                        cone |= (ss - common)
+            for i, ss in enumerate(syms):
+                if (ss & cone) or not ss:
+                    keep[i] = True
+            return [h for h, kf in zip(hyps, keep) if kf]
         # round 0: everything that talks about a (rare) symbol of the goal, whatever its size
         for i, ss in enumerate(syms):
             if (ss & goal_syms) or not ss:
@@ -200,21 +275,9 @@ class Ctx:
                 if len(hyps[i]) < 2500:
                     cone |= (ss - common)
         # expansion: only small facts (definitions, kinds, equalities) pull in more
-        # (level 0: only definitional equalities  (= name term)  of names already in the cone)
-        def is_def_of_cone(h):
-            if not h.startswith("(= "):
-                return False
-            nm = h[3:].split(" ", 1)[0]
-            return nm in cone
-        for _ in range(rounds if level else 6):
+        for _ in range(rounds):
             changed = False
             for i, ss in enumerate(syms):
-                if level == 0:
-                    if not keep[i] and is_def_of_cone(hyps[i]):
-                        keep[i] = True
-                        changed = True
-                        cone |= (ss - common)
-                    continue
                 if not keep[i] and len(hyps[i]) < 2500 and ((ss - common) & cone):
                     keep[i] = True
                     changed = True
@@ -229,7 +292,12 @@ class Ctx:
         for n, s in self.consts:
             out.append("(declare-const %s %s)" % (qsym(n), s))
         hyps = list(self.axioms) + list(ob.hyps)
-        if relevant:
+        if relevant and level == "same":
+            hh = self.same_clause_hyps(hyps, ob.goal)
+            if hh is None:
+                return None
+            hyps = hh
+        elif relevant:
             hyps = self.relevant_hyps(hyps, ob.goal, level=level)
         for h in hyps:
             out.append("(assert %s)" % h)
